@@ -1,4 +1,5 @@
 """C06 — every signature is over the consensus-spec signing root for that duty and key (spec/Signer.tla)."""
+import concurrent.futures
 import json
 import os
 import random
@@ -13,8 +14,16 @@ def driver(scenarios, tag):
     return vf.run_driver(PID, PKG, TEST, scenarios, tag, timeout=1500)
 
 
+def calls_of(s):
+    return [st for st in s["steps"] if st["ev"] == "Call"]
+
+
 def call_of(s):
-    return next(st for st in s["steps"] if st["ev"] == "Call")
+    return calls_of(s)[0]
+
+
+def fork_of(s):
+    return s["steps"][0]["fork"]
 
 
 def shape_of(kinds):
@@ -30,26 +39,58 @@ def shape_of(kinds):
     return "interleaved"
 
 
+def schedule_of(s):
+    return "".join(("C%d" if st["ev"] == "Call" else "R%d") % st["rid"] for st in s["steps"][1:])
+
+
 def sig_of(s):
-    c = call_of(s)
-    return {"op": c["op"], "fail": c["fail"], "family": "dirk" if c["kinds"][0].startswith("prot") else "wallet",
-            "shape": shape_of(c["kinds"])}
+    cs = calls_of(s)
+    if len(cs) == 1:
+        c = cs[0]
+        return {"requests": 1, "op": c["op"], "fail": c["fail"],
+                "family": "dirk" if c["kinds"][0].startswith("prot") else "wallet", "shape": shape_of(c["kinds"])}
+    return {"requests": len(cs), "ops": [c["op"] for c in cs], "epochs": [c["want"]["epoch"] for c in cs],
+            "fails": [c["fail"] for c in cs], "fork": fork_of(s), "schedule": schedule_of(s)}
+
+
+def spans_fork(s):
+    f = fork_of(s)
+    es = [c["want"]["epoch"] for c in calls_of(s) if not c["want"]["genesis"]]
+    return any(e < f for e in es) and any(e >= f for e in es)
+
+
+def overlapped(rows):
+    """two requests were really in flight at the same time on the real service"""
+    open_ = set()
+    for r in rows:
+        if r.get("ev") == "Call":
+            if open_:
+                return True
+            open_.add(r["rid"])
+        elif r.get("ev") == "Return":
+            open_.discard(r["rid"])
+    return False
 
 
 def nontrivial(s, rows):
-    # the antecedent of the property: signatures were returned (and checked with BLS); for batches the order
-    # claim has content only when both groups of the split are populated
-    ret = next((r for r in rows if r.get("ev") == "Return"), None)
-    if not ret or not ret.get("ok"):
+    # the antecedent of the property: signatures were returned (and checked with BLS)
+    rets = [r for r in rows if r.get("ev") == "Return" and r.get("ok") and any(r.get("verifies", []))]
+    if not rets:
         return False
-    c = call_of(s)
+    cs = calls_of(s)
+    if len(cs) > 1:
+        # the history claim has content when domains differ between the requests: both sides of the fork
+        return spans_fork(s) and len(rets) >= 2
+    c = cs[0]
     if len(c["kinds"]) == 1:
-        return any(ret.get("verifies", []))
-    return shape_of(c["kinds"]) in ("ordinary-first", "interleaved") and any(ret.get("verifies", []))
+        return True
+    # for batches the order claim has content only when both groups of the split are populated
+    return shape_of(c["kinds"]) in ("ordinary-first", "interleaved")
 
 
-def scenarios(tier):
-    rnd = random.Random(vf.seed())
+def single_histories(tier, rnd):
+    """histories of length one: every request of the constants on a fresh service; the chain forks at the
+    duty's epoch or right after it (seeded), so that the duty sits directly at the fork on either side"""
     cfg = "Scen_Signer.cfg" if tier == "quick" else "Scen_Signer_big.cfg"
     hs = vf.tlc_scenarios(PID, "Scen_Signer", cfg, exhaustive=True, timeout=1500, heap="6g")
     good = [h for h in hs if h[1]["fail"] == "none"]
@@ -61,11 +102,58 @@ def scenarios(tier):
     else:
         rnd.shuffle(good)
         sel = good[:9000] + bad[:3000]
-    return [{"sc": i + 1, "steps": h} for i, h in enumerate(sel)]
+    out = []
+    for h in sel:
+        e = h[1]["want"]["epoch"]
+        fork = rnd.choice([e, e + 1]) if e >= 0 else rnd.choice([0, 4])
+        out.append([dict(h[0], fork=fork)] + h[1:])
+    return out
+
+
+def overlap_histories(tier):
+    """histories of three overlapping requests: every schedule x every assignment of two single-account
+    operations of different domain types to the last epoch of the old fork / the first of the new one;
+    plus TLC-simulated histories over all operations, account kinds, batches and failure modes"""
+    n_rich, n_fail = (120, 40) if tier == "quick" else (1500, 500)
+    with concurrent.futures.ThreadPoolExecutor(max_workers=3) as pool:
+        core = pool.submit(vf.tlc_scenarios, PID, "Scen_SignerHist", "Scen_SignerHist.cfg", exhaustive=True,
+                           name="scen-hist")
+        rich = pool.submit(vf.tlc_scenarios, PID, "Scen_SignerHist", "Scen_SignerHist_rich.cfg", num=n_rich,
+                           depth=100, name="scen-hist-rich", timeout=900)
+        fail = pool.submit(vf.tlc_scenarios, PID, "Scen_SignerHist", "Scen_SignerHist_fail.cfg", num=n_fail,
+                           depth=100, name="scen-hist-fail", timeout=900)
+        return core.result(), rich.result()[:n_rich] + fail.result()[:n_fail]
+
+
+def model_checks(tier):
+    """(exhaustive runs that must pass, self-check that must fail)"""
+    runs = [("MC_Signer", "MC_Signer.cfg", 900), ("MC_Signer", "MC_Signer_hist.cfg", 900),
+            ("SignerCache", "MC_SignerCache_checked.cfg", 900)]
+    if tier == "thorough":
+        # the long one first: it is the critical path of the thorough tier
+        runs = [("MC_Signer", "MC_Signer_big.cfg", 1800), ("MC_Signer", "MC_Signer_hist_big.cfg", 1800)] + runs
+    return runs
+
+
+def run_mc(module, cfg, timeout):
+    big = cfg == "MC_Signer_big.cfg"
+    return vf.tlc_exhaustive(PID, module, cfg, timeout=timeout, workers=8 if big else 4, coverage=big)
+
+
+def run_selfcheck():
+    # the model must be able to SEE the class: the per-epoch cache whose store does not re-check the epoch
+    # (seeded/C06-domain-cache-straddles-fork) violates C06 over histories
+    r = vf.tlc(PID, "mc-cache-unchecked", "SignerCache", "MC_SignerCache_unchecked.cfg", workers=1, timeout=600)
+    if r["kind"] != "invariant" or r["violated"] not in ("Memoryless", "SigCorrect"):
+        raise vf.Broken("model self-check failed: the unchecked domain cache does not violate Memoryless / SigCorrect "
+                        "(%s %s)\n%s" % (r["kind"], r["violated"], r["out"][-2000:]))
+    vf.log("model self-check: a domain cache whose store does not re-check the epoch violates %s over histories "
+           "(as it must)" % r["violated"])
 
 
 def run(tier):
     v = vf.Verdict(PID, tier)
+    rnd = random.Random(vf.seed())
     v.assumptions = [
         "trusted base: SSZ hash-tree-root (go-eth2-client, go-builder-client) and BLS sign/verify (herumi via "
         "go-eth2-types) are computed in Go by the libraries Vouch itself uses; TLA+ decides domain type, epoch rule, "
@@ -76,19 +164,40 @@ def run(tier):
         "Env_DirkSigns: a protecting signer signs SigningData(root it derives from the fields it is handed, domain it "
         "is handed) - the wrappers do exactly that and log what they were handed; Dirk itself is not run",
         "all contributions of one SignContributionAndProofs batch are for the same slot (as Vouch produces them)",
-        "the domain provider is a fake with a distinct domain per (type, epoch) and per (type, genesis); accounts in "
-        "a batch are distinct",
+        "the domain provider is a fake chain with one fork: the domain of (type, epoch) is a function of the type and "
+        "of the fork version in force at the epoch, (type, genesis) is a third value; its replies are held back and "
+        "released by the driver in the order of the TLC-generated schedule; accounts in a batch are distinct",
+        "histories: up to 3 requests per service instance, one fork per history; overlap is controlled at the domain "
+        "provider (the only place where the signer waits on the outside world before signing)",
     ]
-    v.add_mc(vf.tlc_exhaustive(PID, "MC_Signer", "MC_Signer.cfg"))
-    if tier == "thorough":
-        v.add_mc(vf.tlc_exhaustive(PID, "MC_Signer", "MC_Signer_big.cfg", coverage=True, timeout=1800))
-    sc = scenarios(tier)
-    vf.conformance(v, sc, driver, "Trace_Signer", "Trace_Signer.cfg", sig_of, nontrivial, chunk=1500,
-                   tlc_timeout=1500)
-    v.coverage["rule"] = ("every request of Signer.tla's Calls (operation x slot/epoch x batch of account kinds in every "
-                          "order, length <= MaxBatch) without failure, plus a seeded sample of the failure modes, executed "
-                          "on the real signer; non-trivial = signatures were returned and BLS-verified and, for batches, "
-                          "both groups of the split are populated; distinct by request")
+    with concurrent.futures.ThreadPoolExecutor(max_workers=2) as pool, \
+            concurrent.futures.ThreadPoolExecutor(max_workers=1) as pool2:
+        # the model-checking runs go on beside scenario generation and the driver
+        fut_hist = pool2.submit(overlap_histories, tier)
+        futs = [pool.submit(run_mc, m, c, t) for m, c, t in model_checks(tier)]
+        futs_self = pool.submit(run_selfcheck)
+        try:
+            singles = single_histories(tier, rnd)
+            core, rich = fut_hist.result()
+            sc = [{"sc": i + 1, "steps": h} for i, h in enumerate(singles + core + rich)]
+            vf.log("%d histories: %d of one request, %d exhaustive three-request schedules, %d simulated" % (
+                len(sc), len(singles), len(core), len(rich)))
+            vf.conformance(v, sc, driver, "Trace_Signer", "Trace_Signer.cfg", sig_of, nontrivial, chunk=1500,
+                           tlc_timeout=1500)
+        finally:
+            done = [f.result() for f in futs]
+            futs_self.result()
+    for r in done:
+        v.add_mc(r)
+    v.coverage["rule"] = ("histories executed on the real signer: (a) every request of Signer.tla's Calls (operation x "
+                          "slot/epoch x batch of account kinds in every order, length <= MaxBatch) without failure plus "
+                          "a seeded sample of the failure modes, one request per fresh service, chain forking at or "
+                          "right after the duty's epoch; (b) every schedule (order of request starts and domain-provider "
+                          "replies) of three single-account requests x every assignment of {attestation, randao} and "
+                          "{last epoch before the fork, fork epoch}; (c) TLC-simulated three-request histories over all "
+                          "operations, kinds, batches, failure modes.  Non-trivial = signatures were returned and "
+                          "BLS-verified and: one request - for batches both groups of the split are populated; several "
+                          "requests - the history has requests on both sides of the fork; distinct by history")
     return v.finish()
 
 
